@@ -420,7 +420,12 @@ def parser_reuse(mon, P, rng, n, i18n):
         kws = i18n.languages[lang]
         gen = DocGen(rng, lang, kws)
         good = render_feature(gen.feature(), rng, layout=(i % 2 == 0))[0]
-        fresh = dump_feature(P.Parser().parse(good))
+        kind0, val0 = call(P.Parser().parse, good)
+        if kind0 != "ok":
+            # (a valid document: nothing but a model may come back -- an internal exception is the observation C05 is about)
+            mon.check("reuse.only_parser_error", kind0 != "other", lambda: dict(history=[], text=good, exception=repr(val0)))
+            continue
+        fresh = dump_feature(val0)
         p = P.Parser()
         history = []
         for _ in range(rng.randint(1, 3)):
@@ -435,8 +440,12 @@ def parser_reuse(mon, P, rng, n, i18n):
         # the same for parse_steps on a reused parser (context.execute_steps)
         steps = gen.steps(rng.randint(1, 4), False)
         stext = render_fragment("steps", steps)[0]
+        k_, v_ = call(P.Parser(variant="steps").parse_steps, stext)
+        if k_ != "ok":
+            mon.check("reuse.only_parser_error", k_ != "other", lambda: dict(history=[], steps_text=stext, exception=repr(v_)))
+            continue
         fresh_steps = [(s.keyword, s.name, None if s.text is None else str(s.text),
-                        None if s.table is None else [list(r.cells) for r in s.table.rows]) for s in P.Parser(variant="steps").parse_steps(stext)]
+                        None if s.table is None else [list(r.cells) for r in s.table.rows]) for s in v_]
         p2 = P.Parser(variant="steps")
         hist2 = []
         for _ in range(rng.randint(1, 2)):
